@@ -675,13 +675,39 @@ func genSeq(r *hx.Rng, tier string) []hx.Zs {
 			if connected[p.Ski] {
 				h = append(h, stack.OpDisconnect(p.Ski))
 				connected[p.Ski] = false
-			} else {
+			} else if r.Chance(2, 3) {
 				h = append(h, stack.OpConnect(p.Ski), stack.OpDiscoveryReply(p.Ski, p.Msg(0, nil)))
 				connected[p.Ski] = true
+			} else {
+				// the peer binds through its node-management feature (and names a feature it has not
+				// announced) before it answers the discovery request; the reply follows
+				h = append(h, stack.OpConnect(p.Ski))
+				connected[p.Ski] = true
+				h = append(h, stack.OpBindCall(p.Ski, next(p.Ski), r.Bool(), p.NMAddr(false), stack.NodeMgmt.Addr(r.Bool()), 6))
+				if r.Bool() {
+					lf := pl.Local[r.Intn(len(pl.Local))]
+					h = append(h, stack.OpBindCall(p.Ski, next(p.Ski), r.Bool(), p.Addr(p.Feats[r.Intn(len(p.Feats))], false), lf.Addr(true), lf.Type+1))
+					h = append(h, stack.OpBindDelete(p.Ski, next(p.Ski), r.Bool(), p.Addr(p.Feats[r.Intn(len(p.Feats))], false), lf.Addr(true)))
+				}
+				h = append(h, stack.OpListBinds(p.Ski))
+				if r.Chance(3, 4) {
+					h = append(h, stack.OpDiscoveryReply(p.Ski, p.Msg(0, nil)), stack.OpListBinds(p.Ski))
+					if r.Bool() {
+						h = append(h, stack.OpBindDelete(p.Ski, next(p.Ski), r.Bool(), p.NMAddr(r.Bool()), stack.NodeMgmt.Addr(true)))
+					}
+				}
+				distSeq["pre-reply-binding-then-reply"]++
 			}
 			distSeq["disconnect-reconnect"]++
-		case 7: // entity removed / re-added
-			if len(p.Ents) > 1 {
+		case 7: // entity removed / re-added; mixed notifications; replies that omit entities
+			switch {
+			case r.Chance(1, 4):
+				h = append(h, stack.OpDiscoveryNotify(p.Ski, next(p.Ski), r.Bool(), p.MixedNotify(r)), stack.OpListBinds(p.Ski))
+				distSeq["notification-mixing-added-and-removed"]++
+			case r.Chance(1, 3):
+				h = append(h, stack.OpDiscoveryReply(p.Ski, p.PartialReply(r)), stack.OpListBinds(p.Ski))
+				distSeq["reply-omitting-entities"]++
+			case len(p.Ents) > 1:
 				e := p.Ents[1+r.Intn(len(p.Ents)-1)]
 				st := int64(2)
 				if r.Chance(1, 3) {
